@@ -435,9 +435,16 @@ def _real_chain(old, gens):
             res.add_json_fragment(GeneratorJSONFragmentResult(
                 name="g%d" % i, tags=[], path="/etc/f.json", acl=list(acl), acl_safe=list(acl),
                 config=copy.deepcopy(f), reload="r%d" % i, perf=None, reload_prio=100))
-        files = res.new_json_fragment_files({"/etc/f.json": copy.deepcopy(old)})
+        mine = copy.deepcopy(old)
+        files = res.new_json_fragment_files({"/etc/f.json": mine})
+        if mine != old:
+            raise InputMutated()
         return files["/etc/f.json"][0]
     return _call(run)
+
+
+class InputMutated(Exception):
+    """new_json_fragment_files changed the old file it was given (the callers build the patch from it afterwards)"""
 
 
 def impl(case):
@@ -446,11 +453,15 @@ def impl(case):
     if k == "frag":
         old, f, acl = dec(case["old"]), dec(case["f"]), list(case["acl"])
         r = _call(lambda: jsontools.apply_json_fragment(old, f, acl))
+        # the caller keeps using its arguments (gen.py hands the device's file to the merge and later builds the
+        # patch from that same object): which of them did the call change?
+        mutated = [n for n, a, b in (("old", old, dec(case["old"])), ("fragment", f, dec(case["f"])),
+                                     ("acl", acl, list(case["acl"]))) if a != b]
         again = None
         if "ok" in r:
             r1 = dec(r["ok"])
             again = _call(lambda: jsontools.apply_json_fragment(r1, dec(case["f"]), list(case["acl"])))
-        return dict(r=r, again=again)
+        return dict(r=r, again=again, mutated=mutated)
     if k == "chain":
         return dict(r=_real_chain(dec(case["old"]), [(dec(g["f"]), g["acl"]) for g in case["gens"]]))
     if k == "patch":
@@ -513,7 +524,7 @@ def model(case, resp):
     k = case["k"]
     r = resp[0]
     if k == "frag":
-        return dict(r=r["r"], again=r.get("again"))
+        return dict(r=r["r"], again=r.get("again"), mutated=[])      # the model is a function: its arguments are values
     if k == "patch":
         return dict(ops=[_enc_op(o) for o in _patch_ops(case)], r=r)
     if k == "fnmatch":
@@ -1052,8 +1063,15 @@ def oracle_chain(old, gens, reply):
 def oracle(case, res):
     k = case["k"]
     if k == "frag":
-        return oracle_frag(dec(case["old"]), dec(case["f"]), case["acl"], res["r"], res["again"])
+        out = oracle_frag(dec(case["old"]), dec(case["f"]), case["acl"], res["r"], res["again"])
+        if res.get("mutated"):
+            out = list(out) + [dict(sig="frag.input-mutated", what="apply_json_fragment changed its argument(s) %s: the patch the "
+                                    "callers build afterwards from the same old document no longer reproduces the target"
+                                    % ", ".join(res["mutated"]))]
+        return out
     if k == "chain":
+        if res["r"].get("err") == "InputMutated":
+            return [dict(sig="frag.input-mutated", what="chain: new_json_fragment_files changed the old file it was given")]
         return oracle_chain(dec(case["old"]), [(dec(g["f"]), g["acl"]) for g in case["gens"]], res["r"])
     if k == "patch":
         return oracle_patch(case, res)
